@@ -9,7 +9,7 @@
 EXTENDS Integers, Sequences, FiniteSets, TLC
 
 Modes == {"none", "volume", "pressure"}
-NTVs == {11, 51, 201}
+NTVs == {11, 51, 201, 401}
 Strides == {0, 1, 2, 3, 7}
 VARIABLES mode, hasTable, withSystem, withMass, ntv, sample
 cvars == <<mode, hasTable, withSystem, withMass, ntv, sample>>
